@@ -19,7 +19,10 @@ ENV_KEYS = set('ENV_' + k for k in ENV)
 # ------------------------------------------------------------------ rendering
 
 SUBDIRS = ['', 'logs', 'sock', 'run', 'conf.d', 'conf.d/logs', 'conf.d/sock', 'conf.d/run',
-           'conf.d/sub', 'conf.d/sub/logs', 'conf.d/sub/sock', 'conf.d/sub/run']
+           'conf.d/sub', 'conf.d/sub/logs', 'conf.d/sub/sock', 'conf.d/sub/run',
+           'conf.d/d1', 'conf.d/d1/logs', 'conf.d/d1/sock', 'conf.d/d1/run',
+           'conf.d/d2', 'conf.d/d2/logs', 'conf.d/d2/sock', 'conf.d/d2/run',
+           'conf.d/d3', 'conf.d/d3/logs', 'conf.d/d3/sock', 'conf.d/d3/run']
 
 def render_sections(sections, rng=None):
     """ini text of tokenised sections.  With an rng, semantically neutral
